@@ -29,5 +29,15 @@ TEXTS = {
   "level": "exploration: generated thread plans (shared and private nodes, budget-deferred messages released by injected answers, 255->1 wrap prologue) under generated schedules with preemption at every lock operation; per destination node the decoded wire must carry 1,2,..,255,1,..",
   "note": "interleavings inside critical sections are not explored (lock-granularity scheduler); numbering after system reset is checked by the normal-mode properties",
  },
+ "C13": {
+  "technique": "property-based testing / structure-aware fuzzing (rapidcheck): valid generated configurations printed to YAML and hit by 1-3 text-structure mutations, missing/empty files and byte noise; oracle = return value in {0,1}, virtual-time termination, lock/thread ledger, LeakSanitizer, restart with a valid configuration",
+  "level": "fault_enumeration: every case runs bidib_start_pointer on a mutated file triple inside a forked child under ASan/UBSan with G_SLICE=always-malloc; a rejected start must leave no lock held, no unjoined thread and no leaked memory, and a follow-up start with a known-valid configuration must succeed and report only its own boards",
+  "note": "hang = wait-for cycle or virtual-time budget (deterministic), interface fully answering or fully silent; yaml parsing itself (libyaml) is trusted",
+ },
+ "C14": {
+  "technique": "property-based testing (rapidcheck): generated valid configurations (reference printer) and single-fault mutants of the 25 rejection classes; oracle = reference configuration semantics vs return value and all enumeration getters",
+  "level": "exploration: valid configurations over the documented layout must be accepted and every enumeration getter (boards, accessories with aspects, peripherals, segments, reversers, boosters, track outputs, trains, functions, features, unique ids, initial snapshot) must equal the reference; each single fault of the statement's list must make start return 1 and stop cleanly",
+  "note": "reference semantics in harness/config.cpp written from the example configurations and the statement; getter results compared as multisets (order not asserted)",
+ },
 }
 NOT_YET = {}
